@@ -308,3 +308,31 @@ func udfRouting(repo string) string {
 	fmt.Fprintf(&b, "/-- shapes the extractor did not recognise (no lemma covers them). -/\ndef udfRrOdd : List String := [%s]\n\n", strings.Join(oddL, ", "))
 	return b.String()
 }
+
+// udf.go: do UDFProcess / UDFSocket .Snapshot and .Abort check for the server that Open() has not created yet?
+// guarded = the body compares something named …server… with nil.
+func udfWrapperGuards(repo string) string {
+	f := parseFile(repo, "udf.go")
+	var ents []string
+	for _, w := range []struct{ recv, meth, lean string }{
+		{"UDFProcess", "Snapshot", ".processSnapshot"}, {"UDFProcess", "Abort", ".processAbort"},
+		{"UDFSocket", "Snapshot", ".socketSnapshot"}, {"UDFSocket", "Abort", ".socketAbort"},
+	} {
+		fd := findFunc(f, w.recv, w.meth)
+		if fd == nil || fd.Body == nil {
+			continue // absent: guardOf is false
+		}
+		guarded := false
+		ast.Inspect(fd.Body, func(x ast.Node) bool {
+			if b, ok := x.(*ast.BinaryExpr); ok && (b.Op == token.EQL || b.Op == token.NEQ) {
+				l, r := src(b.X), src(b.Y)
+				if (r == "nil" && strings.Contains(l, "server")) || (l == "nil" && strings.Contains(r, "server")) {
+					guarded = true
+				}
+			}
+			return true
+		})
+		ents = append(ents, fmt.Sprintf("(%s, %v)", w.lean, guarded))
+	}
+	return fmt.Sprintf("/-- udf.go: the wrapper methods reachable before Open() and whether they check for the missing server. -/\ndef udfWrapperGuards : List (Rr.Wrapper × Bool) := [%s]\n\n", strings.Join(ents, ", "))
+}
